@@ -1,9 +1,11 @@
+import NomtModel.Store.WalkerSimCompact
 import NomtModel.Store.WalkerSimMoves
+import NomtModel.Store.WalkerGSimMoves
 import NomtModel.Store.WalkerTreeLog
 /-!
 # `compact_step`, the loop of `compact_up`, `compact_up` of the mirror against the tree walker
 -/
-namespace Nomt.Walker
+namespace Nomt.Walker.G
 open Nomt Nomt.TriePos
 open Nomt.Wal (PageDiff)
 
@@ -94,13 +96,14 @@ theorem sim_compactLoop (Lfin : List (PageId × Store Node)) :
     ∀ (n i layers : Nat) (w : Walker Node) (a : TW Node), Sim H ps w a →
     (n = 0 ∨ 6 * k0 w.parentPage < a.pos.length) →
     (w.reconstruction = true → SmallBy H ps Lfin ∧ (TW.compactLoop H (cfgOf H ps w.parentPage) n a).log <+: Lfin) →
-    ∃ w', Walker.compactLoop H n i layers w = .ok w' ∧
-      Sim H ps w' (TW.compactLoop H (cfgOf H ps w.parentPage) n a) ∧ Same w w' := by
+    (∃ w', Walker.compactLoop H n i layers w = .ok w' ∧
+      Sim H ps w' (TW.compactLoop H (cfgOf H ps w.parentPage) n a) ∧ Same w w') ∨
+    (w.reconstruction = false ∧ Walker.compactLoop H n i layers w = .panic GUARD) := by
   intro n
   induction n with
   | zero =>
     intro i layers w a h _ _
-    exact ⟨w, rfl, h, Same.rfl' _⟩
+    exact Or.inl ⟨w, rfl, h, Same.rfl' _⟩
   | succ n ih =>
     intro i layers w a h hd hfin
     have hd : 6 * k0 w.parentPage < a.pos.length := by
@@ -110,12 +113,20 @@ theorem sim_compactLoop (Lfin : List (PageId × Store Node)) :
     obtain ⟨w1, hw1, hs1, hsame1, hcpr1, hroot1⟩ := sim_compactStep H ps h hd
     have hd1 : 6 * k0 w1.parentPage < (a.compactStep H).2.pos.length := by
       rw [hsame1.1, tw_compactStep_pos_length]; exact hd
-    obtain ⟨w2, hw2, hs2, hsame2, hcpr2, hroot2⟩ := sim_up H ps hs1 hd1 (by
+    have hup2 := sim_up H ps hs1 hd1 (by
       intro hr hdip
       have hr0 : w.reconstruction = true := by rw [← hsame1.2.2.2.2]; exact hr
       obtain ⟨hsb, hpre⟩ := hfin hr0
       exact hsb w1 _ hs1 hr hdip
         (List.IsPrefix.trans (tw_compactLoop_round_prefix H (cfgOf H ps w.parentPage) n a) hpre))
+    rcases hup2 with ⟨w2, hw2, hs2, hsame2, hcpr2, hroot2⟩ | ⟨hnr, hp⟩
+    case inr =>
+      right
+      refine ⟨by rw [← hsame1.2.2.2.2]; exact hnr, ?_⟩
+      simp only [Walker.compactLoop]
+      rw [hw1]
+      simp only
+      rw [hp]
     have hpar2 : w2.parentPage = w.parentPage := hsame2.1.trans hsame1.1
     rw [tw_compactLoop_succ]
     simp only [Walker.compactLoop]
@@ -146,7 +157,7 @@ theorem sim_compactLoop (Lfin : List (PageId × Store Node)) :
           rw [hpp] at hposle
           simp [k0] at hposle
           exact hposle
-        refine ⟨_, rfl, ?_, hsameAll _ rfl rfl rfl rfl rfl⟩
+        refine Or.inl ⟨_, rfl, ?_, hsameAll _ rfl rfl rfl rfl rfl⟩
         refine ⟨hs2.wf, hs2.pos, ?_, hs2.stackE, hs2.stackT, hs2.chain, ?_, hs2.counters, hs2.recon.cast H rfl rfl rfl rfl rfl, hs2.cpr, hs2.outs, hs2.nofix, hs2.diffs⟩
         · simp [TW.setNode, hnil, upd_same]
         · intro sp hsp
@@ -159,7 +170,7 @@ theorem sim_compactLoop (Lfin : List (PageId × Store Node)) :
           | some x => rfl
         have hnp : (cfgOf H ps w.parentPage).hasParent = true := by simp [cfgOf, hpp']
         rw [if_pos hnp, if_neg hpn]
-        refine ⟨_, rfl, ?_, hsameAll _ rfl rfl rfl rfl rfl⟩
+        refine Or.inl ⟨_, rfl, ?_, hsameAll _ rfl rfl rfl rfl rfl⟩
         refine ⟨hs2.wf, hs2.pos, hs2.root, hs2.stackE, hs2.stackT, hs2.chain, hs2.pages, hs2.counters, hs2.recon.cast H rfl rfl rfl rfl rfl, ?_, hs2.outs, hs2.nofix, hs2.diffs⟩
         simp only [List.map_append, List.map_cons, List.map_nil]
         rw [hs2.cpr, hs2.pos]
@@ -187,7 +198,7 @@ theorem sim_compactLoop (Lfin : List (PageId × Store Node)) :
       obtain ⟨w4, hw4, hs4, hsame4, _, _, _⟩ := sim_setNode H ps hs3 hd3 (a.compactStep H).1
       simp only [hw4]
       have hpar4 : w4.parentPage = w.parentPage := hsame4.1.trans (hsame3.1.trans hpar2)
-      obtain ⟨w5, hw5, hs5, hsame5⟩ := ih (i + 1) layers w4 _ hs4 (Or.inr (by
+      have hrec5 := ih (i + 1) layers w4 _ hs4 (Or.inr (by
         show 6 * k0 w4.parentPage < ((a.compactStep H).2.up).pos.length
         rw [hsame4.1]; exact hd3)) (by
           intro hr
@@ -198,8 +209,11 @@ theorem sim_compactLoop (Lfin : List (PageId × Store Node)) :
           rw [hpar4]
           rw [tw_compactLoop_succ, if_neg hse'] at hpre
           exact hpre)
-      rw [hpar4] at hs5
-      exact ⟨w5, hw5, hs5, Same.trans' (Same.trans' (Same.trans' (Same.trans' hsame1 hsame2) hsame3) hsame4) hsame5⟩
+      rcases hrec5 with ⟨w5, hw5, hs5, hsame5⟩ | ⟨hnr5, hp5⟩
+      · rw [hpar4] at hs5
+        exact Or.inl ⟨w5, hw5, hs5, Same.trans' (Same.trans' (Same.trans' (Same.trans' hsame1 hsame2) hsame3) hsame4) hsame5⟩
+      · refine Or.inr ⟨?_, hp5⟩
+        rw [← hsame1.2.2.2.2, ← hsame2.2.2.2.2, ← hsame3.2.2.2.2, ← hsame4.2.2.2.2]; exact hnr5
 
 /-- `compact_up` -/
 theorem sim_compactUp {w : Walker Node} {a : TW Node} (h : Sim H ps w a) (target : Option Pos)
@@ -207,14 +221,15 @@ theorem sim_compactUp {w : Walker Node} {a : TW Node} (h : Sim H ps w a) (target
     (Lfin : List (PageId × Store Node))
     (hfin : w.reconstruction = true → SmallBy H ps Lfin ∧
       (a.compactUp H (cfgOf H ps w.parentPage) (target.map (·.path))).log <+: Lfin) :
-    ∃ w', w.compactUp H target = .ok w' ∧
-      Sim H ps w' (a.compactUp H (cfgOf H ps w.parentPage) (target.map (·.path))) ∧ Same w w' := by
+    (∃ w', w.compactUp H target = .ok w' ∧
+      Sim H ps w' (a.compactUp H (cfgOf H ps w.parentPage) (target.map (·.path))) ∧ Same w w') ∨
+    (w.reconstruction = false ∧ w.compactUp H target = .panic GUARD) := by
   unfold Walker.compactUp TW.compactUp
   have hse := sim_stackEmpty H ps h
   by_cases hempty : w.stack.isEmpty = true
   · have hse' : a.stackEmpty (cfgOf H ps w.parentPage) = true := by rw [← hse]; exact hempty
     rw [if_pos hempty, if_pos hse']
-    exact ⟨w, rfl, h, Same.rfl' _⟩
+    exact Or.inl ⟨w, rfl, h, Same.rfl' _⟩
   · have hse' : ¬ a.stackEmpty (cfgOf H ps w.parentPage) = true := by rw [← hse]; exact hempty
     rw [if_neg hempty, if_neg hse']
     have hd : 6 * k0 w.parentPage < a.pos.length := by
@@ -227,7 +242,7 @@ theorem sim_compactUp {w : Walker Node} {a : TW Node} (h : Sim H ps w a) (target
     | none =>
       simp only [Option.map_none]
       rw [hdep]
-      obtain ⟨w', hw', hs', hsame⟩ := sim_compactLoop H ps Lfin a.pos.length 0 a.pos.length
+      rcases sim_compactLoop H ps Lfin a.pos.length 0 a.pos.length
         ({ w with siblingStack := [] } : Walker Node) a (sim_other_fields H ps h [] w.prevNode w.lastPosition)
         (Or.inr hd) (by
           intro hr
@@ -235,8 +250,9 @@ theorem sim_compactUp {w : Walker Node} {a : TW Node} (h : Sim H ps w a) (target
           refine ⟨hsb, ?_⟩
           unfold TW.compactUp at hpre
           rw [if_neg hse'] at hpre
-          exact hpre)
-      exact ⟨w', hw', hs', hsame⟩
+          exact hpre) with ⟨w', hw', hs', hsame⟩ | ⟨hnr, hp⟩
+      · exact Or.inl ⟨w', hw', hs', hsame⟩
+      · exact Or.inr ⟨hnr, hp⟩
     | some t =>
       simp only [Option.map_some]
       have hsd : w.position.sharedDepth t = sharedBits a.pos t.path := by
@@ -249,12 +265,12 @@ theorem sim_compactUp {w : Walker Node} {a : TW Node} (h : Sim H ps w a) (target
         cases hpn : w.prevNode with
         | none =>
           simp only
-          exact ⟨_, rfl, sim_other_fields H ps h _ none w.lastPosition, Same.rfl' _⟩
+          exact Or.inl ⟨_, rfl, sim_other_fields H ps h _ none w.lastPosition, Same.rfl' _⟩
         | some pn =>
           simp only
-          exact ⟨_, rfl, sim_other_fields H ps h _ none w.lastPosition, Same.rfl' _⟩
+          exact Or.inl ⟨_, rfl, sim_other_fields H ps h _ none w.lastPosition, Same.rfl' _⟩
       · rw [if_neg hl0]
-        obtain ⟨w', hw', hs', hsame⟩ := sim_compactLoop H ps Lfin (a.pos.length - (sharedBits a.pos t.path + 1)) 0
+        rcases sim_compactLoop H ps Lfin (a.pos.length - (sharedBits a.pos t.path + 1)) 0
           (a.pos.length - (sharedBits a.pos t.path + 1))
           ({ w with siblingStack := w.siblingStack.takeWhile (fun s => decide (s.2 ≤ sharedBits a.pos t.path)),
                     prevNode := none } : Walker Node) a
@@ -264,7 +280,8 @@ theorem sim_compactUp {w : Walker Node} {a : TW Node} (h : Sim H ps w a) (target
             refine ⟨hsb, ?_⟩
             unfold TW.compactUp at hpre
             rw [if_neg hse'] at hpre
-            exact hpre)
-        exact ⟨w', hw', hs', hsame⟩
+            exact hpre) with ⟨w', hw', hs', hsame⟩ | ⟨hnr, hp⟩
+        · exact Or.inl ⟨w', hw', hs', hsame⟩
+        · exact Or.inr ⟨hnr, hp⟩
 
-end Nomt.Walker
+end Nomt.Walker.G
